@@ -538,6 +538,10 @@ def run(env):
 
     def priority(item):
         shape, steps = item
+        # second-level caches (the recursion analysis behind the method caches) are only visible when an operation flips
+        # the analysed property of an already used type: these few histories first, whatever the time cap (seed S09b)
+        if shape == "S4" and steps[1] == steps[3] and all(s.get("target") == "Rec" for s in (steps[0], steps[2])):
+            return -1
         if shape == "S2" and steps[0] == steps[2]:
             return 0
         if shape == "S4" and P.op_group(steps[0]) == P.op_group(steps[2]) and steps[1] == steps[3]:
